@@ -246,6 +246,9 @@ func (r *recRep) Put(m *sse.Message, tp []string) (*sse.Message, error) {
 	name := nameOf(m)
 	if r.nPut == r.putPanic {
 		r.t.log(jev{"e": "put", "p": name, "v": "panic", "id": "", "idset": false})
+		if r.errWithMsg {
+			panic(fmt.Errorf("scripted replayer panic in Put: %w", errPut)) // a panic value need not be a string
+		}
 		panic("scripted replayer panic in Put")
 	}
 	if r.nPut == r.putErrAt {
@@ -270,6 +273,10 @@ func (r *recRep) Replay(s sse.Subscription) error {
 	r.t.log(jev{"e": "rbegin", "s": w.id})
 	if r.nReplay == r.repPanic {
 		r.t.log(jev{"e": "rend", "s": w.id, "v": "panic"})
+		if r.errWithMsg {
+			var m map[string]int
+			m["a replayer's own bug"] = 1 // a runtime error as panic value
+		}
 		panic("scripted replayer panic in Replay")
 	}
 	if r.nReplay == r.repErrAt {
